@@ -137,6 +137,22 @@ def handlePipe (fs : List String) : String :=
     | none => "bad-op"
   | _ => "bad-op"
 
+/-- stream `audite2e`: `e2e write|read <reqExempt> <respExempt> <keys>` — which of the request's data keys have their
+values in clear in the audit entries of that request: request data is exempted by the mount's
+`audit_non_hmac_request_keys`, response data by `audit_non_hmac_response_keys` (`handleCancelableRequest` loads each list
+into its own field of the `LogInput`); everything else is HMACed by the hash walk (`C11.hash_no_plain_leaf`) -/
+def handleE2E (fs : List String) : String :=
+  let lst (s : String) : List String := if s = "-" then [] else s.splitOn ","
+  match fs with
+  | ["e2e", kind, reqEx, respEx, keys] =>
+    let ex := if kind = "write" then some (lst reqEx) else if kind = "read" then some (lst respEx) else none
+    match ex with
+    | some ex =>
+      let clear := (lst keys).filter fun k => ex.contains k
+      "clear:" ++ (if clear.isEmpty then "-" else ",".intercalate clear)
+    | none => "bad-op"
+  | _ => "bad-op"
+
 def streams : List (String × Driver.Stream) :=
-  [("auditbroker", .stateless handleBroker), ("auditpipe", .stateless handlePipe)]
+  [("auditbroker", .stateless handleBroker), ("auditpipe", .stateless handlePipe), ("audite2e", .stateless handleE2E)]
 end Driver.Audit
